@@ -603,10 +603,36 @@ func (e *ext) c06EventGlue(dir string) {
 	}
 }
 
+// c06RestoreFacts (round 4): which functions of the package call the helper subtractAllocated with the literal
+// `false` / `true` as withNonNegativeResult.  RestoreReservation must keep a reservation's remainder SIGNED
+// (restore_never_reports_held_amount_free / restore_clamped_counterexample).  If the helper no longer exists under
+// that name the fact says so and the tie holds vacuously (the `rsv` harness is then the only guard).
+func (e *ext) c06RestoreFacts(dir string) {
+	callWith := func(lit string) func(n ast.Node) bool {
+		return func(n ast.Node) bool {
+			c, ok := n.(*ast.CallExpr)
+			if !ok || len(c.Args) != 3 {
+				return false
+			}
+			id, ok := c.Fun.(*ast.Ident)
+			if !ok || id.Name != "subtractAllocated" {
+				return false
+			}
+			a, ok := c.Args[2].(*ast.Ident)
+			return lit == "" || (ok && a.Name == lit)
+		}
+	}
+	anyCall := e.c06Enclosing(dir, callWith(""))
+	fmt.Fprintf(&e.out, "/-- the helper subtractAllocated(m, allocated, withNonNegativeResult) is still called under that name -/\ndef subtractAllocatedKnown : Bool := %v\n", len(anyCall) > 0)
+	fmt.Fprintf(&e.out, "/-- functions calling subtractAllocated(…, false): signed result -/\ndef subtractSignedCallers : List String := %s\n", c06Strs(e.c06Enclosing(dir, callWith("false"))))
+	fmt.Fprintf(&e.out, "/-- functions calling subtractAllocated(…, true): clamped at zero -/\ndef subtractClampedCallers : List String := %s\n", c06Strs(e.c06Enclosing(dir, callWith("true"))))
+}
+
 func init() {
 	extractors["C06"] = func(e *ext) {
 		d := "pkg/scheduler/plugins/nodenumaresource"
 		e.c06CommitSites()
+		e.c06RestoreFacts(d)
 		e.c06GetOrCreate(d)
 		e.c06EventGlue(d)
 		e.c06Sections(d, "resourceManager", "Update", "rmUpdate")
